@@ -114,6 +114,24 @@ def affiliation_structure(L, aff, e_call):
     return True, ''
 
 
+def factor_degree(t, pname, depth=0):
+    """how many times does parameter `pname` enter the product t as a factor (max over alternatives)"""
+    t = strip_views(t)
+    if depth > 30 or not isinstance(t, T):
+        return 0
+    if t.op == 'param':
+        return 1 if t.args[0] == pname else 0
+    if t.op == 'sub':
+        return factor_degree(t.args[0], pname, depth + 1)
+    if t.op in ('binop', 'iop') and t.args[0] == 'Mult':
+        return factor_degree(t.args[1], pname, depth + 1) + factor_degree(t.args[2], pname, depth + 1)
+    if t.op == 'gamma':
+        return max(factor_degree(t.args[1], pname, depth + 1), factor_degree(t.args[2], pname, depth + 1))
+    if t.op == 'const':
+        return 0
+    return 1 if any(x.op == 'param' and x.args[0] == pname for x in walk_terms(t, into_mu=False)) else 0
+
+
 def check_plumbing(run, A):
     prog, ev = A.prog, A.ev
     n = 0
@@ -143,6 +161,11 @@ def check_plumbing(run, A):
             s = cf.args.get('saliency')
             f = callee_func(cf)
             ok = s is not None and ('param', 'affiliation') in s.deps and ('param', 'saliency') in s.deps
+            st = call_arg(cf.term, None, 'saliency')
+            if st is not None:
+                dg = factor_degree(st, 'saliency')
+                run.check(dg == 1, 'R-DEP', f'{short}: saliency enters the {f.cls.name} update exactly once', cf.ctx.fn.loc(cf.term.node), '',
+                          f'observation weights of the component update contain the saliency {dg} times', construct=f'R-DEP::{ms.qual}::saliency-degree::{f.cls.name}')
             run.check(ok, 'R-DEP', f'{short}: {f.cls.name}._fit is weighted by affiliation x saliency', cf.ctx.fn.loc(cf.term.node), '',
                       f'observation weights of the component update depend on {sorted(map(str, s.deps)) if s is not None else None}; both the posterior and the saliency must enter',
                       construct=f'R-DEP::{ms.qual}::component-weights::{f.cls.name}')
@@ -159,6 +182,12 @@ def check_plumbing(run, A):
                 run.check(ok, 'R-DEP', f'{short}: weight update from affiliation, saliency and weight_constant_axis', cf.ctx.fn.loc(cf.term.node), '',
                           'estimate_mixture_weight does not receive the posterior, the saliency and weight_constant_axis of this M-step',
                           construct=f'R-DEP::{ms.qual}::weight-update')
+                # the routine multiplies by the saliency itself: its affiliation argument must be the plain posterior (saliency enters exactly once)
+                at = call_arg(cf.term, 0, 'affiliation')
+                deg = factor_degree(at, 'saliency') if at is not None else 0
+                run.check(deg == 0, 'R-DEP', f'{short}: saliency enters the weight update exactly once', cf.ctx.fn.loc(cf.term.node), '',
+                          f'the affiliation handed to estimate_mixture_weight already carries the saliency (degree {deg}) and the routine multiplies by it again: weights ~ sum s^2 gamma',
+                          construct=f'R-DEP::{ms.qual}::saliency-degree-weight')
         else:
             # integration models: inline weight update stored in the returned model
             res = ctx.result
